@@ -174,6 +174,44 @@ func genC14(r *Rand, tier string) *Case {
 				stream = stream[:cutAt]
 			}
 		}
+	} else if r.Chance(1, 8) && nrows > 0 {
+		// a fixed-width field sent with another width (the bytes announced do
+		// follow, the stream stays aligned): not a value of the column's type
+		k := r.Intn(nrows)
+		var cand []int
+		for i, c := range cols {
+			switch oidFamily(c.OID) {
+			case "bool", "int2", "int4", "int8", "oid", "f32", "f64", "uuid", "date", "ts", "tstz":
+				if rows[k][i] != nil {
+					cand = append(cand, i)
+				}
+			}
+		}
+		if len(cand) > 0 {
+			i := cand[r.Intn(len(cand))]
+			orig := rows[k][i]
+			var repl []byte
+			switch r.Intn(3) {
+			case 0: // widened
+				repl = append(append([]byte{}, orig...), r.Bytes(r.PickInt(1, 2, 4, 8))...)
+			case 1: // narrowed to a non-empty prefix
+				if len(orig) > 1 {
+					repl = append([]byte{}, orig[:r.Range(1, len(orig)-1)]...)
+				} else {
+					repl = append(append([]byte{}, orig...), 0)
+				}
+			case 2: // the text rendering of a number where the binary value belongs
+				repl = []byte(fmt.Sprintf("%d", r.Intn(100000)+10))
+				if len(repl) == len(orig) {
+					repl = append(repl, '0')
+				}
+			}
+			rows[k][i] = repl
+			stream = pgwire.EncodeBinaryCopyExt(rows, trailer, ext)
+			want = want[:k]
+			end = "err"
+			variant = "wrong-width-field"
+		}
 	} else if r.Chance(1, 10) && trailer {
 		variant = "garbage-after-trailer"
 		stream = append(stream, r.Bytes(r.Range(1, 9))...)
